@@ -109,7 +109,17 @@ func TestC04Stateful(t *testing.T) {
 				switch {
 				case b.name != "":
 					form = "putNamed"
-					o = w.c.Invoke(signers, w.cnt, "putNamed", b.value, sigv, pub, token, b.name, "")
+					zone := ""
+					if rapid.IntRange(0, 3).Draw(rt, "zoneSpeltOut") == 0 {
+						form, zone = "putNamed(root zone spelt out)", "container"
+					}
+					o = w.c.Invoke(signers, w.cnt, "putNamed", b.value, sigv, pub, token, b.name, zone)
+					meta = false
+				case rapid.IntRange(0, 5).Draw(rt, "unnamedThroughPutNamed") == 0:
+					// no name given: putNamed is put, whatever the zone argument says
+					zone := rapid.SampledFrom([]string{"", "container", "some.zone"}).Draw(rt, "zoneOfUnnamed")
+					form = fmt.Sprintf("putNamed(\"\", %q)", zone)
+					o = w.c.Invoke(signers, w.cnt, "putNamed", b.value, sigv, pub, token, "", zone)
 					meta = false
 				case meta:
 					form = "put(meta)"
